@@ -811,6 +811,65 @@ fn run(case: &Case, obs: &mut Obs) -> Check {
     Ok(())
 }
 
+/// stretch one vector of the first chargeable transaction of the case to `n` elements
+fn stretch(c: &mut Case, which: u8, n: usize) {
+    for t in c.txs.iter_mut() {
+        if let AnyTx::Charge(t) = t {
+            match which {
+                0 => {
+                    let mut k = 0u16;
+                    while t.inputs.len() < n {
+                        k = k.wrapping_add(1);
+                        let mut id = [0x5a; 32];
+                        id[0] = (k >> 8) as u8;
+                        id[1] = k as u8;
+                        t.inputs.push(InSpec::CoinSigned { utxo: UtxoSpec(B32(id), k), owner: B32([3; 32]), amount: k as u64, asset: B32([0; 32]), txp: TxpSpec(0, 0), wit: 0 });
+                    }
+                }
+                1 => {
+                    while t.outputs.len() < n {
+                        let k = t.outputs.len() as u64;
+                        t.outputs.push(OutSpec::Coin { to: B32([4; 32]), amount: k, asset: B32([0; 32]) });
+                    }
+                }
+                2 => {
+                    while t.witnesses.len() < n {
+                        let k = t.witnesses.len() as u8;
+                        t.witnesses.push(HexBytes(vec![k]));
+                    }
+                }
+                _ => match &mut t.body {
+                    BodySpec::Create { slots, .. } => {
+                        let mut k = 0u16;
+                        while slots.len() < n {
+                            k += 1;
+                            let mut key = [0u8; 32];
+                            key[30] = (k >> 8) as u8;
+                            key[31] = k as u8;
+                            slots.push((B32(key), B32([k as u8; 32])));
+                        }
+                        slots.sort();
+                        slots.dedup_by(|a, b| a.0 == b.0);
+                    }
+                    BodySpec::Upload { proof, .. } => {
+                        while proof.len() < n {
+                            let k = proof.len() as u8;
+                            proof.push(B32([k; 32]));
+                        }
+                    }
+                    _ => {
+                        while t.witnesses.len() < n {
+                            let k = t.witnesses.len() as u8;
+                            t.witnesses.push(HexBytes(vec![k, 1]));
+                        }
+                    }
+                },
+            }
+            return;
+        }
+    }
+}
+
 pub fn property() -> Property {
     Property {
         id: "C07",
@@ -830,6 +889,27 @@ pub fn property() -> Property {
             strat: Box::new(|_c: &Ctx| case_strategy(8).boxed()),
             check: Box::new(run),
             shrink_iters: 30_000,
+        }),
+        // vectors longer than 255 elements (chain-configurable limits are u16 / u64): one vector of
+        // the first transaction is stretched to 255 / 256 / 257 / 300 / 700 cheap elements
+        Box::new(GenPart {
+            name: "long-vectors".into(),
+            rule: "a sequence whose first transaction has one vector (inputs, outputs, witnesses, storage slots or proof set) of 255..=700 elements".into(),
+            cases: (600, 20_000),
+            strat: Box::new(|_c: &Ctx| {
+                (case_strategy(2), 0u8..5, prop::sample::select(vec![255usize, 256, 257, 300, 700]))
+                    .prop_map(|(mut c, which, n)| {
+                        stretch(&mut c, which, n);
+                        canonicalise(&mut c.txs);
+                        c
+                    })
+                    .boxed()
+            }),
+            check: Box::new(|c: &Case, obs: &mut Obs| {
+                obs.class("long-vector");
+                run(c, obs)
+            }),
+            shrink_iters: 200,
         })],
         floors: vec![("sequences", "key-reuse-across-txs", 0.30), ("sequences", "counter-wrap", 0.30), ("sequences", "has-kind:Mint", 0.10)],
     }
